@@ -1,6 +1,7 @@
 # SPDX-License-Identifier: BSD-3-Clause
 # Copyright (c) 2024 Osyris contributors (https://github.com/osyris-project/osyris)
 import numpy as np
+from pint.errors import DimensionalityError
 
 from .layer import Layer
 from .tools import bytes_to_human_readable
@@ -54,7 +55,14 @@ class Datagroup:
         if self.keys() != other.keys():
             return False
         for key, value in self.items():
-            if all(value != other[key]):
+            try:
+                equal = value == other[key]
+            except (ValueError, DimensionalityError):
+                # shapes that do not broadcast, or units that cannot be converted
+                return False
+            # Comparing Vectors yields one boolean Array per component
+            components = equal._xyz.values() if hasattr(equal, "_xyz") else [equal]
+            if not all(np.all(c.values) for c in components):
                 return False
         return True
 
